@@ -87,7 +87,43 @@ RULE = ("random structural operations: cat (2-3 operands, every axis), pad of te
         "(rectangular operators included), to_ttm, conj, clone; order 1..4, singleton modes, ranks up to 3, float64/complex128/float32, small-integer data; "
         "non-trivial = interior rank > 1; distinct = (structure, dtype)")
 
+def exhaustive_structures(rng):
+    """thorough tier: EVERY structure of cat (order 1..3, sizes 1..3, every axis, second operand 1..2 along it), pad of tensors and operators (order 1..2,
+    sizes 1..3, every trailing subset, every width pair in {0,1}^2, fill 0 and 2), single mode products (every mode, 1..3 rows), diag and to_ttm"""
+    import itertools, torch
+    out = []
+    mk3 = lambda N: Lit3(ttgen.rand_tt_cores(rng, list(N), ttgen.rand_ranks(rng, len(N), 2), False, -2, 2))
+    mk4 = lambda M, N: Lit4(ttgen.rand_ttm_cores(rng, list(M), list(N), ttgen.rand_ranks(rng, len(M), 2), False))
+    T = (torch.float64, coqrun.Z)
+    for d in (1, 2, 3):
+        for N in itertools.product((1, 2, 3), repeat=d):
+            x = mk3(N)
+            for dim in range(d):
+                for ny in (1, 2):
+                    Ny = list(N); Ny[dim] = ny
+                    out.append((Op("OCat", [x, mk3(Ny)], [[dim]]), "exhaustive cat") + T)
+            for k in range(d):
+                for l in (1, 2, 3):
+                    out.append((Op("OMprod", [x, Dense(ttgen.rand_core(rng, (l, N[k]), False, -2, 2))], [[k], [0]]), "exhaustive mprod") + T)
+            out.append((Op("ODiag", [x], [[0]]), "exhaustive diag") + T)
+            out.append((Op("OToTTM", [x]), "exhaustive to_ttm") + T)
+            if d <= 2:
+                for k in range(1, d + 1):
+                    for pads in itertools.product(([0, 0], [0, 1], [1, 0], [1, 1]), repeat=k):
+                        for v in (0, 2):
+                            out.append((Op("OPad", [x, Scal("float", v)], [[0, d]] + [list(p_) for p_ in pads]), "exhaustive pad") + T)
+    for d in (1, 2):
+        for M in itertools.product((1, 2), repeat=d):
+            for N in itertools.product((1, 2, 3), repeat=d):
+                A = mk4(M, N)
+                for k in range(1, d + 1):
+                    for pads in itertools.product(([0, 0], [0, 1], [1, 0], [1, 1]), repeat=k):
+                        out.append((Op("OPad", [A, Scal("float", rng.choice([0, 2]))], [[1, d]] + [list(p_) for p_ in pads]), "exhaustive pad-ttm") + T)
+    return out
+
 def run(tier, seed, replay=None):
     import torch
     dtypes = [(torch.float64, coqrun.Z), (torch.complex128, coqrun.ZI), (torch.float64, coqrun.Z), (torch.float32, coqrun.Z)]
-    return exprcheck.run(PID, tier, seed, gen_case, 400, 6000, RULE, nontrivial, dtypes, )
+    return exprcheck.run(PID, tier, seed, gen_case, 400, 6000, RULE + ("; thorough tier additionally enumerates EVERY small structure of cat, pad (tensors and operators), "
+                         "single mode products, diag and to_ttm" if tier == "thorough" else ""), nontrivial, dtypes,
+                         extra_cases=exhaustive_structures if tier == "thorough" else None)
